@@ -84,6 +84,18 @@ func histBatch(rng *rand.Rand, kind string, prefix string) *model.Batch {
 		// several hundred fields (more than 256 in most draws)
 		o.NumFields = []int{300, 257, 255, 400}[rng.Intn(4)]
 		return model.Gen(rng, "xwide", o)
+	case "giant":
+		// an output of about 20 MiB (incompressible stored values)
+		b := &model.Batch{}
+		for d := 0; d < 320; d++ {
+			v := make([]byte, 64<<10)
+			for k := range v {
+				v[k] = byte(rng.Intn(255))
+			}
+			b.Docs = append(b.Docs, model.Doc{ID: fmt.Sprintf("%sg%03d", prefix, d), Fields: []model.FieldInst{
+				{Name: "blob", Type: 't', Stored: true, Value: v, Len: 1, Toks: []model.Tok{{Term: "x", Freq: 1}}}}})
+		}
+		return b
 	case "shapes":
 		// geo-shape instances in fields without doc values: the builder collects
 		// their shapes although nothing will write them
@@ -137,6 +149,10 @@ func histBatch(rng *rand.Rand, kind string, prefix string) *model.Batch {
 // drawHistory draws 8..14 kinds; adversarial neighbours are forced by
 // construction: every kind follows every other kind over the cases.
 func drawHistory(rng *rand.Rand, i int) []string {
+	if i%80 == 13 {
+		// ordinary batches right after a very large one
+		return []string{"small", "giant", "small", "one", "syn", "giant", "mid", "dv"}
+	}
 	if i%20 == 7 {
 		// same document count, growing documents, each followed by a one-document batch
 		return []string{"ramp10", "ramp10", "ramp13", "one", "ramp10", "ramp10", "ramp16", "one", "ramp10", "ramp10", "ramp19", "one", "ramp10", "ramp10", "ramp115", "one", "small"}
@@ -229,6 +245,20 @@ func runHistory(c *Ctx, r *oracle.Report, id string, rng *rand.Rand, kinds []str
 				}
 			}
 			m := model.Build(b)
+			if !countPool {
+				// concurrent builders also emit their images at the same time: each image ends
+				// with its own footer
+				var buf bytes.Buffer
+				if _, err := writeTo(seg, &buf); err != nil {
+					r.Fail("writeto-err", "%s: WriteTo: %v", tag, err)
+				} else {
+					checkFileFooter(r, tag+" (image emitted while other goroutines build and emit)", buf.Bytes(), m.NumDocs, mode)
+				}
+			}
+			if kinds[k] == "giant" {
+				oracle.CheckStored(r, tag, seg, m, 1)
+				return
+			}
 			oracle.CheckPostings(r, tag, seg, m, oracle.PostOpts{ChunkMode: mode, AbsentFields: absentFields, AbsentTerms: absentTerms})
 			oracle.CheckStored(r, tag, seg, m, 2)
 			oracle.CheckIDs(r, tag, seg, m, nil)
